@@ -94,7 +94,7 @@ class C34(Engine):
                    "rest-parameter functions (zip, min, max, map-remove, selector-nest/append, call) are compared in positional form only"]
     mc_runs = {"quick": [("MC_Forms", "MC_Forms_C34_q.cfg", {"workers": 4})],
                "thorough": [("MC_Forms", "MC_Forms_C34_q.cfg", {"workers": 4})]}
-    random_n = {"quick": 400, "thorough": 20000}
+    random_n = {"quick": 1500, "thorough": 20000}
     trace = ("Trace_Forms", "Trace_Forms.cfg")
 
     # ------------------------------------------------------------------
